@@ -289,7 +289,62 @@ func (w *spWorld) observe() string {
 	for _, k := range kept {
 		ks = append(ks, fmt.Sprint(k))
 	}
-	return fmt.Sprintf("set=[%s] sent=%s near=%s badaddr=%d", strings.Join(ks, ","), strings.Join(sent, "|"), strings.Join(near, "|"), badAddr)
+	// the reprovide schedule: prefix-free, and (checked by the verdict after a whole window online) covering every kept key.
+	// A region is out of the schedule while it is being reprovided (unscheduled, sent, rescheduled): if a kept key is not
+	// covered, let the reprovide in flight finish and look again (what is sent meanwhile is left for the next observation).
+	sched := w.prov.VerifSchedule()
+	if !w.schedCovers(sched, kept) {
+		time.Sleep(5 * time.Minute)
+		synctest.Wait()
+		sched = w.prov.VerifSchedule()
+	}
+	overlap := 0
+	for i, a := range sched {
+		for j, b := range sched {
+			if i != j && strings.HasPrefix(a, b) {
+				overlap = 1
+			}
+		}
+	}
+	var uncovered []string
+	for _, k := range kept {
+		bits := spBits(k)
+		cov := false
+		for _, p := range sched {
+			if strings.HasPrefix(bits, p) {
+				cov = true
+			}
+		}
+		if !cov {
+			uncovered = append(uncovered, fmt.Sprint(k))
+		}
+	}
+	return fmt.Sprintf("set=[%s] sent=%s near=%s badaddr=%d sched=%d overlap=%d uncovered=[%s]", strings.Join(ks, ","), strings.Join(sent, "|"), strings.Join(near, "|"), badAddr,
+		len(sched), overlap, strings.Join(uncovered, ","))
+}
+
+func spBits(k int) string {
+	h := sha256.Sum256(spKey(k))
+	bits := ""
+	for _, by := range h[:4] {
+		bits += fmt.Sprintf("%08b", by)
+	}
+	return bits
+}
+
+func (w *spWorld) schedCovers(sched []string, kept []int) bool {
+	for _, k := range kept {
+		cov := false
+		for _, p := range sched {
+			if strings.HasPrefix(spBits(k), p) {
+				cov = true
+			}
+		}
+		if !cov {
+			return false
+		}
+	}
+	return true
 }
 
 func runSP(c *vu.Case) {
